@@ -46,3 +46,9 @@ claim("C19", "exploration", "model-based testing of RuleImputeManager over opera
 claim("C20", "exploration", "property-based testing of MoleculeStandardizer with composition / parse / idempotence oracles on enol- and hemiketal-enriched molecules",
       "Every corpus molecule (third in quick, all in thorough), all rooted spellings of 45 hand-built enol/hemiketal/ortho-acid/enolate/metal-alkoxide seeds and Hypothesis-built molecules with several such groups and mixtures must standardise without exception to a parsable SMILES of identical composition and charge, idempotently; a sample is repeated under other PYTHONHASHSEED values (fgutils group detection depends on it).",
       TB + "; fgutils' FGQuery is a third-party dependency whose output varies with PYTHONHASHSEED", "DESIGN.md 4/C20")
+claim("C09", "exploration", "round-trip property-based testing of fragment merging (cut one bond, merge, compare with the original) plus independent rebuild of rule-named completions",
+      "Generated (molecule, acyclic single bond) cuts over corpus and edited molecules in two-fragment, one-fragment, catalyst and cross-molecule modes through merge(); the result must equal the original connectivity (or the fragments when a restriction rule is reported), or the fragment bonded to the compound named by the reported expand rule as rebuilt independently from the rule files; atom conservation clauses always.",
+      TB + "; stereo marks excluded by the statement; rule choice itself is trusted as reported", "DESIGN.md 4/C09")
+claim("C16", "exploration", "property-based testing of the functional-group matcher: renumbering metamorphic relation + differential against RDKit substructure search on explicit SMARTS + recomputed combinator",
+      "Every atom of generated / corpus / ring-rich molecules x every configured pattern, group and anti-pattern structure: pattern_match compared both ways with an RDKit substructure reference, is_functional_group compared under atom renumbering and against the pattern/anti-pattern combinator. The tree-walk false positives in cyclic neighbourhoods are a listed known finding (K16); false positives elsewhere and all misses are violations.",
+      TB + "; RDKit GetSubstructMatches is the reference for 'real occurrence'", "DESIGN.md 4/C16")
